@@ -1404,8 +1404,8 @@ class Approximate(Funsor):
         inputs.update(guide.inputs)
         output = model.output
         fresh = frozenset(v.name for v in approx_vars)
-        bound = {v.name: v.output for v in approx_vars}
-        super().__init__(inputs, output, fresh, bound)
+        # approx_vars stay inputs of the result: they are not bound here
+        super().__init__(inputs, output, fresh)
         self.op = op
         self.model = model
         self.guide = guide
